@@ -341,6 +341,90 @@ func c05CallerFacts(l *leanFile) {
 	}
 	l.p("/-- Service.ensurePipe answers with success only with what GetPipe found (never after a failed CreatePipe alone) -/")
 	l.p("def ensurePipeSuccessOnlyFromGet : Bool := %s", leanBool(ep != nil && c05SuccessOnlyFromGet(ep)))
+	// --- lifetime of the request text a held cursor keeps: rpc ServerQuerier.query decodes the request WITHOUT copying
+	// (unmarshalQueryRequest(body, &rq, false): rq.Query / rq.Pos are weak strings into the request buffer) and stores
+	// rq.Query in the cursor state, which the provider may cache; crsr.ApplyState later compares that text with the next
+	// request's. So the buffer must never go back to a pool in this handler (or the request must be decoded with a copy).
+	qf := files["api/rpc/querier.go"]
+	life := "unknown"
+	if qfd := funcDecl(qf, "ServerQuerier", "query"); qfd == nil || qfd.Body == nil {
+		problem("api/rpc/querier.go: ServerQuerier.query not found")
+	} else {
+		bufName, copied, found := "", false, false
+		ast.Inspect(qfd.Body, func(n ast.Node) bool {
+			ce, ok := n.(*ast.CallExpr)
+			if !ok || found || !c05CalleeIs(ce, "unmarshalQueryRequest") || len(ce.Args) != 3 {
+				return true
+			}
+			found = true
+			if id, ok := ce.Args[0].(*ast.Ident); ok {
+				bufName = id.Name
+			}
+			if id, ok := ce.Args[2].(*ast.Ident); ok && (id.Name == "true" || id.Name == "false") {
+				copied = id.Name == "true"
+			} else {
+				bufName = "" // not a literal: unknown shape
+			}
+			return true
+		})
+		if !found || bufName == "" {
+			problem("api/rpc/querier.go: ServerQuerier.query: unmarshalQueryRequest(<buffer>, _, <true|false>) not found")
+		} else {
+			released := false
+			ast.Inspect(qfd.Body, func(n ast.Node) bool {
+				ce, ok := n.(*ast.CallExpr)
+				if !ok {
+					return true
+				}
+				name := c05CalleeName(ce)
+				switch name {
+				case "Collect", "Put", "Release", "Free", "Recycle":
+					for _, a := range ce.Args {
+						if c05Mentions(a, bufName) {
+							released = true
+						}
+					}
+				}
+				return true
+			})
+			life = map[bool]string{true: "copied", false: "weak"}[copied] + ";" + map[bool]string{true: "released", false: "kept"}[released]
+		}
+	}
+	l.p("/-- rpc ServerQuerier.query: how the request is decoded (`weak` = strings point into the request buffer, `copied`) and whether")
+	l.p("the handler hands the request buffer to a pool (`released`: a call Collect/Put/Release/Free/Recycle with it, deferred or not) or not (`kept`) -/")
+	l.p("def rpcQueryRequestLifetime : String := %s", leanStr(life))
+	af := parseFile("pkg/cursor/cursor.go")
+	cmp := false
+	if afd := funcDecl(af, "crsr", "ApplyState"); afd == nil || afd.Body == nil {
+		problem("pkg/cursor/cursor.go: crsr.ApplyState not found")
+	} else {
+		// some `if` whose condition contains `<x>.Query != <y>.Query` (either order) and whose body returns a non-nil error
+		ast.Inspect(afd.Body, func(n ast.Node) bool {
+			is, ok := n.(*ast.IfStmt)
+			if !ok || cmp {
+				return true
+			}
+			has := false
+			ast.Inspect(is.Cond, func(m ast.Node) bool {
+				if be, ok := m.(*ast.BinaryExpr); ok && be.Op == token.NEQ {
+					sx, ok1 := be.X.(*ast.SelectorExpr)
+					sy, ok2 := be.Y.(*ast.SelectorExpr)
+					if ok1 && ok2 && sx.Sel.Name == "Query" && sy.Sel.Name == "Query" {
+						has = true
+					}
+				}
+				return true
+			})
+			if has && len(is.Body.List) > 0 {
+				if rs, ok := is.Body.List[len(is.Body.List)-1].(*ast.ReturnStmt); ok && len(rs.Results) == 1 && !c05IsNil(rs.Results[0]) {
+					cmp = true
+				}
+			}
+			return true
+		})
+	}
+	l.p("/-- crsr.ApplyState refuses a state whose Query differs from the cursor's (`if … a.Query != b.Query … { return <error> }`) -/")
+	l.p("def applyStateRefusesOtherQuery : Bool := %s", leanBool(cmp))
 	// the three places that use a filter treat a missing one as "every event": siterator (pipe) — so the guards above matter
 	wf := parseFile("pkg/lql/whereeval.go")
 	bw := funcDecl(wf, "", "BuildWhereExpFunc")
